@@ -279,7 +279,7 @@ fn pre(ctx: &Ctx) {
 pub fn property() -> Property {
     Property {
         id: "C10",
-        rule: "file info: 0..6 files with names of 1..63 bytes (ASCII and UTF-8; distinct within a folder, a quarter of the files in folders of their own share the first file's base name), contents of length 0..300 KB (2 MiB thorough) forced onto the SHA-1 padding boundaries, plus single files of k x 2^p - 1, + 0, + 1 bytes for p = 10..22, k = 1..8 up to 4 MiB (16 MiB thorough), handed to FileInfo::new as paths 0..2 directories deep; entries = (base name, exact size, own SHA-1); write_to_buffer decoded by a fixed-position reader (magic @0, 1024 @24, table size @28, records @1024+96i: size @0, name @8 NUL-padded to 64, digest @72 padded to 24); from_existing(written) = same entries. patch lists: boot and game lists of 0..8 entries, lengths / sizes up to 2^63-1 with sum < 2^63, versions, 1..6 hashes, URLs free of TAB / CR LF / ','; to_string equals the harness's renderer of the documented layout; from_string(to_string(x)) preserves length, size on disk, version, URL (game: hash block size, hashes) and patch_length = sum of lengths. Non-trivial: >= 2 files one of which is >= 64 bytes; >= 2 entries (game: one with >= 2 hashes). Distinct by hash of the table / text.",
+        rule: "[rounds 8-9: file names over all legal bytes (backslash, quotes, wildcards, brackets); a third of the URLs real-shaped with /exN/ segments; long URLs, hash lists of 60..200, lists of 40..120 entries] file info: 0..6 files with names of 1..63 bytes (ASCII and UTF-8; distinct within a folder, a quarter of the files in folders of their own share the first file's base name), contents of length 0..300 KB (2 MiB thorough) forced onto the SHA-1 padding boundaries, plus single files of k x 2^p - 1, + 0, + 1 bytes for p = 10..22, k = 1..8 up to 4 MiB (16 MiB thorough), handed to FileInfo::new as paths 0..2 directories deep; entries = (base name, exact size, own SHA-1); write_to_buffer decoded by a fixed-position reader (magic @0, 1024 @24, table size @28, records @1024+96i: size @0, name @8 NUL-padded to 64, digest @72 padded to 24); from_existing(written) = same entries. patch lists: boot and game lists of 0..8 entries, lengths / sizes up to 2^63-1 with sum < 2^63, versions, 1..6 hashes, URLs free of TAB / CR LF / ','; to_string equals the harness's renderer of the documented layout; from_string(to_string(x)) preserves length, size on disk, version, URL (game: hash block size, hashes) and patch_length = sum of lengths. Non-trivial: >= 2 files one of which is >= 64 bytes; >= 2 entries (game: one with >= 2 hashes). Distinct by hash of the table / text.",
         assumptions: &["names <= 63 bytes; URLs, versions, ids free of the separators", "unknown_a / unknown_b of patch entries are not part of the statement (the parser drops them)"],
         pre: Some(pre),
         post: None,
